@@ -444,7 +444,68 @@ def _sp_getitem(interp, self: Sparse, args, kwargs):
         i = norm_index(ctx, to_num(idx[1][0]), self.nrows, "row index")
         j = norm_index(ctx, to_num(idx[1][1]), self.ncols, "column index")
         return self.mat.buf.fn(i, j)
+    if self.fmt in ("csr", "csc", "coo") and isinstance(idx, tuple) and idx[0] == "tuple" and len(idx[1]) == 2:
+        return _sp_fancy_select(interp, self, idx[1])
     raise Unsupported(f"subscript on a {self.fmt} sparse matrix")
+
+
+def _full_slice(p):
+    return isinstance(p, tuple) and p and p[0] == "slice" and all(x is None for x in p[1:])
+
+
+def _sp_fancy_select(interp, self: Sparse, parts):
+    """A[:, idx] / A[idx, :] with an integer sequence `idx` (scipy: new matrix of the same format holding the selected
+    columns / rows in the order of `idx`, negative entries count from the end, IndexError outside [-dim, dim))."""
+    ctx = interp.ctx
+    if self.fmt == "coo":
+        raise PyRaise("TypeError", "'coo_array' object is not subscriptable")
+    if _full_slice(parts[0]) and not _full_slice(parts[1]):
+        axis, sel = 1, parts[1]
+    elif _full_slice(parts[1]) and not _full_slice(parts[0]):
+        axis, sel = 0, parts[0]
+    else:
+        raise Unsupported("sparse subscript other than [:, idx] / [idx, :]")
+    if not isinstance(sel, Vec) or sel.elem not in ("int",):
+        raise Unsupported("sparse fancy index that is not an integer sequence")
+    dim = self.ncols if axis == 1 else self.nrows
+    isn = snapshot(sel)
+    L = sel.length
+    pk = ctx.int("selpos")
+    ctx.binder_stack.append([])
+    try:
+        v = zint(to_num(isn(pk)).z)
+    finally:
+        ctx.binder_stack.pop()
+    ctx.oblige(f"safe:sparse-fancy-index-in-range[axis={axis}]", "safe",
+               z3.Implies(z3.And(pk >= 0, pk < zint(L)), z3.And(v >= -zint(dim), v < zint(dim))))
+
+    def at(k):
+        x = zint(to_num(isn(zint(k))).z)
+        return z3.If(x < 0, x + zint(dim), x)
+    d = _dense_snapshot(ctx, self)
+    r = _rowsum_snapshot(ctx, self)
+    if axis == 1:
+        g = ctx.func(f"rowsum_colsel{next(Sparse._ids)}", z3.IntSort(), z3.RealSort())
+        out = Sparse(self.fmt, self.nrows, L, dense=lambda c, i, j: d(c, i, at(j)), rowsum=lambda c, i: g(zint(i)), canonical=True)
+    else:
+        out = Sparse(self.fmt, L, self.ncols, dense=lambda c, i, j: d(c, at(i), j), rowsum=lambda c, i: r(c, at(i)), canonical=True)
+    out.selected_from = (self, axis, sel)
+    return out
+
+
+@method("Sparse", "tocsc")
+def _sp_tocsc(interp, self: Sparse, args, kwargs):
+    ctx = interp.ctx
+    if args or kwargs:
+        raise Unsupported("tocsc(copy=...)")
+    if self.fmt == "csc":
+        return self
+    if self.fmt not in ("csr", "coo"):
+        raise Unsupported(f"tocsc from {self.fmt}")
+    d, r = _dense_snapshot(ctx, self), _rowsum_snapshot(ctx, self)
+    out = Sparse("csc", self.nrows, self.ncols, dense=d, rowsum=r, canonical=True)
+    out.converted_from = self
+    return out
 
 
 @method("Sparse", "__setitem__")
@@ -468,6 +529,14 @@ _old_tocsr = METHODS[("Sparse", "tocsr")]
 
 @method("Sparse", "tocsr")
 def _sp_tocsr2(interp, self: Sparse, args, kwargs):
+    if self.fmt == "csc":
+        if args or kwargs:
+            raise Unsupported("tocsr(copy=...)")
+        ctx = interp.ctx
+        d, r = _dense_snapshot(ctx, self), _rowsum_snapshot(ctx, self)
+        out = Sparse("csr", self.nrows, self.ncols, dense=d, rowsum=r, canonical=True)
+        out.converted_from = self
+        return out
     if self.fmt == "dok":
         ctx = interp.ctx
         snap = self.mat.buf.fn
